@@ -35,12 +35,12 @@ def _logical(raw, kind):
 
 
 def replay(spec, steps, nobj, rnd=None, missing_init=False, observe=False, write_concern=False,
-           want=("ret", "raw", "nowrite", "family"), buffered=False):
+           want=("ret", "raw", "nowrite", "family"), buffered=False, inner_exit=None):
     """Returns (problems, steps_executed, diverged).  buffered=True: the whole history runs inside
     Class.buffer_backend() (histories without outside writes only): results must be the same, the file is
     compared with the model document after the context has exited (C05 / C06 with child handles)."""
     if buffered:
-        return _replay_buffered(spec, steps, nobj, rnd, want)
+        return _replay_buffered(spec, steps, nobj, rnd, want, inner_exit)
     problems = []
     init = steps[0]
     assert init["a"] == "init"
@@ -203,7 +203,7 @@ class Graph:
         return cur, labs
 
 
-def _replay_buffered(spec, steps, nobj, rnd, want):
+def _replay_buffered(spec, steps, nobj, rnd, want, force_inner_exit=None):
     problems = []
     res = spec.new_resource()
     env.reset_class_state()
@@ -219,9 +219,19 @@ def _replay_buffered(spec, steps, nobj, rnd, want):
         model_doc = doc0
         ctx = spec.cls.buffer_backend()
         ctx.__enter__()
+        # single-object histories: half of them additionally run the first part inside obj.buffered NESTED in the
+        # backend-wide context and leave that inner context at a random step - handles obtained before must stay valid
+        inner, inner_exit = None, None
+        if nobj == 1 and len(steps) > 2 and (force_inner_exit is not None or (rnd is not None and rnd.random() < 0.5)):
+            inner = objs[1].buffered
+            inner.__enter__()
+            inner_exit = force_inner_exit if force_inner_exit is not None else rnd.randrange(1, len(steps) - 1)
         for n, st in enumerate(steps[1:], 1):
             a = st["a"]
             executed = n
+            if inner is not None and n > inner_exit:
+                inner.__exit__(None, None, None)
+                inner = None
             if a == "ext":
                 break
             if a == "drop":
@@ -251,15 +261,20 @@ def _replay_buffered(spec, steps, nobj, rnd, want):
                 if o["op"] == "popitem" and obs[0] == "ret":
                     return problems, n, True
                 problems.append({"aspect": "ret", "step": n, "handle_owner": owner[st["h"]], "first_toucher": first_toucher,
-                                 "child_handle": st["h"] > nobj, "detail": "inside buffer_backend(): " + why})
+                                 "child_handle": st["h"] > nobj, "nested_inner_context_left_after_step": inner_exit,
+                                 "detail": "inside buffer_backend(): " + why})
                 break
             model_doc = val.to_py(st["doc"])
+        if inner is not None:
+            inner.__exit__(None, None, None)
+            inner = None
         ctx.__exit__(None, None, None)
         ctx = None
         if not problems:
             raw = res.read_raw()
             if not (raw is env.MISSING and model_doc in ({}, [])) and not val.same_typed(raw, model_doc):
                 problems.append({"aspect": "raw", "step": executed, "first_toucher": first_toucher,
+                                 "nested_inner_context_left_after_step": inner_exit,
                                  "detail": f"after leaving buffer_backend() the backend holds {raw!r}, expected {model_doc!r}"})
         return problems, executed, False
     finally:
